@@ -53,6 +53,8 @@ pub struct Report {
 	/// canonical keys of visited states (explicit-state engines): unioned across shards so
 	/// that `states`/`distinct` count distinct states, not per-worker visits
 	pub state_keys: BTreeSet<u64>,
+	/// max number of distinct violation keys kept (0 = default 50)
+	pub violation_cap: usize,
 }
 
 impl Report {
@@ -70,7 +72,8 @@ impl Report {
 	pub fn violation(&mut self, key: impl Into<String>, what: impl Into<String>, case: Value) {
 		let key = key.into();
 		// keep the list bounded: one per key, at most 50
-		if self.violations.iter().any(|v| v.key == key) || self.violations.len() >= 50 {
+		let cap = if self.violation_cap == 0 { 50 } else { self.violation_cap };
+		if self.violations.iter().any(|v| v.key == key) || self.violations.len() >= cap {
 			return;
 		}
 		self.violations.push(Violation {
@@ -89,6 +92,9 @@ impl Report {
 		}
 		for (k, v) in o.outcomes {
 			*self.outcomes.entry(k).or_insert(0) += v;
+		}
+		if o.violation_cap > self.violation_cap {
+			self.violation_cap = o.violation_cap;
 		}
 		for v in o.violations {
 			self.violation(v.key, v.what, v.case);
@@ -137,6 +143,7 @@ impl Report {
 			"violations": self.violations.iter().map(|v| json!({"key": v.key, "what": v.what, "case": v.case})).collect::<Vec<_>>(),
 			"notes": self.notes, "extra": self.extra, "capped": self.capped,
 			"state_keys": self.state_keys.iter().collect::<Vec<_>>(),
+			"violation_cap": self.violation_cap,
 		})
 	}
 	pub fn from_json(v: &Value) -> Report {
@@ -172,6 +179,7 @@ impl Report {
 			}
 		}
 		r.capped = v["capped"].as_str().map(|s| s.to_string());
+		r.violation_cap = v["violation_cap"].as_u64().unwrap_or(0) as usize;
 		if let Some(a) = v["state_keys"].as_array() {
 			r.state_keys = a.iter().filter_map(|x| x.as_u64()).collect();
 		}
@@ -242,6 +250,7 @@ pub struct Finish<'a> {
 pub fn finish(f: Finish, parts: Vec<(String, Report)>) -> i32 {
 	let known = load_known();
 	let mut total = Report::new();
+	total.violation_cap = parts.iter().map(|(_, r)| r.violation_cap).max().unwrap_or(0);
 	let mut per_part = Map::new();
 	for (name, r) in &parts {
 		let mut pj = Map::new();
@@ -376,8 +385,11 @@ pub fn finish(f: Finish, parts: Vec<(String, Report)>) -> i32 {
 		capped.map(|c| format!(" CAPPED({})", c)).unwrap_or_default()
 	);
 	if !real.is_empty() {
-		for (v, p) in real.iter().zip(replay_paths.iter()) {
-			println!("  violation: {} :: {}", v.key, v.what);
+		for (k, (v, p)) in real.iter().zip(replay_paths.iter()).enumerate() {
+			if k < 12 {
+				let w: String = v.what.chars().take(400).collect();
+				println!("  violation: {} :: {}", v.key, w);
+			}
 			println!("VIOLATION property={} replay={}", f.prop, p);
 		}
 		return 1;
